@@ -46,6 +46,14 @@ def literal_items(t):
     return None
 
 
+def literal_terms(t):
+    """Item terms of a literal tuple / list (of constants or of arbitrary terms, e.g. (column, function) pairs), else None."""
+    t = strip(t)
+    if head(t) in ("tuple", "list") and t[1] and not any(head(strip(x)) == "star" for x in t[1]):
+        return [strip(x) for x in t[1]]
+    return None
+
+
 def unroll(summary, event_or_ctxloops, terms):
     """Instantiate ``terms`` for every combination of the enclosing loops whose iterables are literal collections of constants.
     Returns [(assignment {loopid: value}, [terms...])]; loops over non-literal iterables stay symbolic."""
@@ -53,7 +61,7 @@ def unroll(summary, event_or_ctxloops, terms):
     domains = []
     for lid in loops:
         lp = summary.loops[lid]
-        items = literal_items(lp.iterable) if lp.kind == "for" else None
+        items = literal_terms(subst(lp.iterable, {})) if lp.kind == "for" else None
         if items is not None:
             domains.append((lp, items))
     combos = [({}, {})]
@@ -63,9 +71,10 @@ def unroll(summary, event_or_ctxloops, terms):
             # the iterable itself may mention outer loop elements: substitute first
             for v in items:
                 a2, m2 = dict(asg), dict(m)
+                v = subst(v, m)
                 a2[lp.lid] = v
-                m2[lp.elem] = const(v)
-                m2[subst(lp.elem, m)] = const(v)
+                m2[lp.elem] = v
+                m2[subst(lp.elem, m)] = v
                 new.append((a2, m2))
         combos = new
     out = []
